@@ -1,3 +1,4 @@
+\* as is: back-off of two ticks, a failing dial, an inbound connection, three rounds, GC
 SPECIFICATION Spec
 CONSTANTS
   Peers = {"p1", "p2"}
@@ -17,7 +18,7 @@ CONSTANTS
   SignedWant = FALSE
   Serialized = FALSE
   DirectAPI = FALSE
-VIEW state
 CHECK_DEADLOCK FALSE
+VIEW state
 INVARIANTS TypeOK SizeBound ReportedExactlyOnce ViewBookkeeping PeersResult
 PROPERTIES ContactLeavesBackoff GCInvisible
